@@ -119,7 +119,8 @@ class System:
         from oslo_policy import policy as P
         self.P = P
         self.silent_ops = 'silent' in topo
-        self.delete_ops = 'absent' in topo      # the file can vanish again
+        # the file can vanish again (also the only file of a directory)
+        self.delete_ops = 'absent' in topo or topo == 't1silentdir'
         self.topo = TOPOLOGIES[topo]
         self.w = world.FileWorld()
         self.shared = shared_defaults(P)
